@@ -807,7 +807,7 @@ func c07size(g *Gen) int {
 	case x < 992:
 		return 50 + r.Intn(g.Scale(100, 300))
 	default:
-		return 150 + r.Intn(g.Scale(250, 1500))
+		return 150 + r.Intn(g.Scale(250, 600))
 	}
 }
 
@@ -896,7 +896,7 @@ func init() {
 				}
 			}
 			// random histories
-			n := g.Scale(2500, 40000)
+			n := g.Scale(2500, 8000)
 			for i := 0; i < n; i++ {
 				variant := r.Intn(5)
 				nsteps := 1 + r.Intn(4)
